@@ -113,6 +113,41 @@ class CmpSwap(ast.NodeTransformer):
         return node
 
 
+class IfSwap(ast.NodeTransformer):
+    """`if c: A else: B` -> `if not c: B else: A` (only when there is a real else block, not an elif chain)"""
+
+    def visit_If(self, node: ast.If):
+        self.generic_visit(node)
+        if node.orelse and not (len(node.orelse) == 1 and isinstance(node.orelse[0], ast.If)):
+            node.test = ast.UnaryOp(op=ast.Not(), operand=node.test)
+            node.body, node.orelse = node.orelse, node.body
+        return node
+
+
+class Elseify(ast.NodeTransformer):
+    """`if c: ...return/raise` followed by more statements -> the following statements become the else block"""
+
+    def _block(self, stmts: list[ast.stmt]) -> list[ast.stmt]:
+        out: list[ast.stmt] = []
+        i = 0
+        while i < len(stmts):
+            st = stmts[i]
+            if isinstance(st, ast.If) and not st.orelse and st.body and isinstance(st.body[-1], (ast.Return, ast.Raise)) and i + 1 < len(stmts) and not any(isinstance(x, (ast.FunctionDef, ast.AsyncFunctionDef, ast.ClassDef)) for x in stmts[i + 1:]):
+                st.orelse = self._block(stmts[i + 1:])
+                out.append(st)
+                return out
+            out.append(st)
+            i += 1
+        return out
+
+    def visit_FunctionDef(self, node):
+        self.generic_visit(node)
+        node.body = self._block(node.body)
+        return node
+
+    visit_AsyncFunctionDef = visit_FunctionDef
+
+
 def make_twin(mode: str, src: pathlib.Path, dest: pathlib.Path) -> None:
     """copy src/xknx to dest/xknx, rewriting every module (mode: 'rename' | 'format')"""
     shutil.copytree(src / "xknx", dest / "xknx", ignore=shutil.ignore_patterns("__pycache__"))
@@ -124,6 +159,10 @@ def make_twin(mode: str, src: pathlib.Path, dest: pathlib.Path) -> None:
             t = KwReverse().visit(t)
         elif mode == "cmpswap":
             t = CmpSwap().visit(t)
+        elif mode == "ifswap":
+            t = IfSwap().visit(t)
+        elif mode == "elseify":
+            t = Elseify().visit(t)
         ast.fix_missing_locations(t)
         out = ast.unparse(t) + "\n"
         compile(out, str(p), "exec")
